@@ -106,3 +106,142 @@ Example C04_ptr_release_outside_lock_completes :
   snd r = true /\ List.length (filter (fun x => is_dispose 1 (snd x)) (clis r)) = 1 /\
   List.length (filter (fun x => is_cli "outoffuel" (snd x)) (clis r)) = 0.
 Proof. exact release_outside_lock_completes. Qed.
+
+(** * Additions: exempt_ptr dereference validity, release() inside the lock for every schedule, nesting.
+    Proofs: LV.Proofs.RcuPtrXDisp / RcuPtrXDispThm (extended invariant [XInv] = the client invariant + "a disposing
+    thread is outside every section"), LV.Proofs.RcuPtrXHold (thread-local books: holds pay for releases and for what
+    the thread carries), LV.Proofs.RcuPtrXThm (combination with the custody theorems above).
+    "xtouch p" = dereference of a held exempt_ptr outside any read-side section, before its release(). *)
+From LV Require Import Proofs.RcuPtrXDisp Proofs.RcuPtrXDispThm Proofs.RcuPtrXHold Proofs.RcuPtrXThm Proofs.RcuPtrXStuck.
+
+(** ** release() inside the lock (any [strict], in particular [strict = false] = what the -DNDEBUG code executes) *)
+
+(** general_instant runs the disposer in the releasing thread after its own synchronize(): for EVERY schedule, every
+    spin fuel, every client program, a "dispose" event is emitted only by a thread that is outside every read-side
+    section at that moment (nested sections included: [outside_at] speaks about the outermost one) *)
+Theorem C04_ptr_dispose_outside :
+  forall (strict : bool) (fuel : nat) (ths : list (list RcuPtr.pop)) c,
+    Conc.reach (RcuPtr.pinit_cfg strict fuel ths) c ->
+    forall d w p, at_ (Conc.trace c) d w (is_dispose p) -> outside_at (Conc.trace c) w d.
+Proof. exact ptr_dispose_outside_all. Qed.
+Print Assumptions C04_ptr_dispose_outside.
+
+(** a thread that calls release() inside its own section (the "release" event at r lies in the section opened at s)
+    emits no "dispose" event - for this batch or any other - while that section is open: every later "dispose" of that
+    thread is preceded by the "runlock 0" that closes the section.  The client of LV.Model.RcuPtr cannot unlock while it
+    is inside release(), so that release never disposes and never completes (its synchronize waits for itself);
+    [C04_ptr_release_inside_lock_deadlocks] above and [C04_ptr_nested_release_inside_deadlocks] below show such runs *)
+Theorem C04_ptr_release_inside_no_dispose :
+  forall (strict : bool) (fuel : nat) (ths : list (list RcuPtr.pop)) c,
+    Conc.reach (RcuPtr.pinit_cfg strict fuel ths) c ->
+    forall w s r p, at_ (Conc.trace c) r w (is_release p) -> open_at (Conc.trace c) w s r ->
+      forall d q, r < d -> at_ (Conc.trace c) d w (is_dispose q) ->
+        exists b, r < b < d /\ at_ (Conc.trace c) b w is_runlock0.
+Proof. exact ptr_release_inside_no_dispose. Qed.
+Print Assumptions C04_ptr_release_inside_no_dispose.
+
+(** ... and it never completes: after a "release" event emitted inside a read-side section the releasing thread emits
+    nothing but atomic accesses, "retire" events and the final "outoffuel" of the model (a wait loop ran out of spin
+    fuel; the real code spins forever): no "dispose", no response of the operation, no later operation, no unlock -
+    for every schedule, every spin fuel, every client program.  Proof: LV.Proofs.RcuPtrXStuck (thread-local phase
+    monitor) + [C04_ptr_dispose_outside] *)
+Theorem C04_ptr_release_inside_never_completes :
+  forall (strict : bool) (fuel : nat) (ths : list (list RcuPtr.pop)) c,
+    Conc.reach (RcuPtr.pinit_cfg strict fuel ths) c ->
+    forall w s r ps, nth_error (Conc.trace c) r = Some (w, EvCli "release" ps) -> open_at (Conc.trace c) w s r ->
+      forall j e, r < j -> nth_error (Conc.trace c) j = Some (w, e) ->
+        (exists k o ok, e = EvAcc k o ok) \/ (exists args, e = EvCli "retire" args) \/ e = EvCli "outoffuel" [].
+Proof. exact ptr_release_inside_never_completes. Qed.
+Print Assumptions C04_ptr_release_inside_never_completes.
+
+(** the same fact as a statement of the proof rule (Conc.safe, relative to the invariant [XInv]): do_release of a
+    non-empty batch that starts at nesting depth d+1 has only the out-of-fuel outcome [false], for every spin fuel;
+    [XInv] holds in every reachable configuration of every client ([C04_ptr_xinv_reachable]) *)
+Theorem C04_ptr_release_inside_returns_false :
+  forall (t fuel : nat) (rec : option nat) (d : nat) (p : Z) (ps : list Z) (l : PL),
+    PIdle rec (S d) l ->
+    Conc.safe pview XInv t (RcuPtr.do_release fuel (p :: ps)) l (fun ok _ => ok = false).
+Proof. exact release_inside_returns_false. Qed.
+Print Assumptions C04_ptr_release_inside_returns_false.
+
+Theorem C04_ptr_xinv_reachable :
+  forall (strict : bool) (fuel : nat) (ths : list (list RcuPtr.pop)) c,
+    Conc.reach (RcuPtr.pinit_cfg strict fuel ths) c -> Conc.cfg_ok pview XInv c.
+Proof. intros strict fuel ths c. apply Conc.reach_inv. apply xpinit_ok. Qed.
+Print Assumptions C04_ptr_xinv_reachable.
+
+(** ** exempt_ptr dereference validity (strict client contract) *)
+
+(** thread-local books, any [strict]: at every "xtouch p" of thread t strictly fewer "release" events naming p than
+    "hold p" events of t precede it *)
+Theorem C04_ptr_xtouch_paid :
+  forall (strict : bool) (fuel : nat) (ths : list (list RcuPtr.pop)) c,
+    Conc.reach (RcuPtr.pinit_cfg strict fuel ths) c ->
+    forall x t p, at_ (Conc.trace c) x t (is_xtouch p) ->
+      cnt (is_release p) t (firstn x (Conc.trace c)) < cnt (is_hold p) t (firstn x (Conc.trace c)).
+Proof. exact ptr_xtouch_paid_all. Qed.
+Print Assumptions C04_ptr_xtouch_paid.
+
+(** when a thread dereferences its exempt_ptr outside any section it has taken the node into custody, has not released
+    it, and no thread has retired it yet *)
+Theorem C04_ptr_xtouch_custody :
+  forall (fuel : nat) (ths : list (list RcuPtr.pop)) c,
+    Conc.reach (RcuPtr.pinit_cfg true fuel ths) c ->
+    forall x t p, at_ (Conc.trace c) x t (is_xtouch p) ->
+      (exists u, u < x /\ at_ (Conc.trace c) u t (is_hold p)) /\
+      (forall r, r < x -> ~ at_ (Conc.trace c) r t (is_release p)) /\
+      (forall k w, at_ (Conc.trace c) k w (is_retire p) -> x < k).
+Proof. exact ptr_xtouch_custody. Qed.
+Print Assumptions C04_ptr_xtouch_custody.
+
+(** an exempt_ptr dereference never follows the disposal of the node *)
+Theorem C04_ptr_xtouch_valid :
+  forall (fuel : nat) (ths : list (list RcuPtr.pop)) c,
+    Conc.reach (RcuPtr.pinit_cfg true fuel ths) c ->
+    forall p x t d w, at_ (Conc.trace c) x t (is_xtouch p) -> at_ (Conc.trace c) d w (is_dispose p) -> x < d.
+Proof. exact ptr_xtouch_valid. Qed.
+Print Assumptions C04_ptr_xtouch_valid.
+
+(** non-vacuity: extract, dereference outside any section, release, disposal *)
+Example C04_ptr_xderef_run :
+  snd xderef_run = true /\
+  map snd (filter (fun x => orb (is_hold 1 (snd x)) (orb (is_xtouch 1 (snd x)) (orb (is_release 1 (snd x))
+             (orb (is_retire 1 (snd x)) (is_dispose 1 (snd x)))))) (clis xderef_run))
+  = [EvCli "hold" [1%Z]; EvCli "xtouch" [1%Z]; EvCli "release" [1%Z]; EvCli "retire" [1%Z]; EvCli "dispose" [1%Z]].
+Proof. exact xderef_run_events. Qed.
+
+(** ** nesting (the model has nested read-side sections: rlock at depth d emits "rlock d+1", runlock "runlock d-1"; all
+    theorems of this file quantify over client programs with arbitrary nesting, sections are identified by their
+    OUTERMOST pair "rlock 1" / "runlock 0") *)
+
+(** a node touched through find / a raw_ptr at any nesting depth is disposed only after the toucher has closed its
+    outermost section: an inner unlock does not end the protection of the raw_ptr *)
+Theorem C04_ptr_touch_dispose_after_outermost :
+  forall (fuel : nat) (ths : list (list RcuPtr.pop)) c,
+    Conc.reach (RcuPtr.pinit_cfg true fuel ths) c ->
+    forall p x r d w, at_ (Conc.trace c) x r (is_touch p) -> at_ (Conc.trace c) d w (is_dispose p) ->
+      exists s b, s < x < b /\ b < d /\ at_ (Conc.trace c) s r is_rlock1 /\
+        (forall j, s < j < x -> ~ at_ (Conc.trace c) j r is_runlock0) /\ at_ (Conc.trace c) b r is_runlock0.
+Proof. exact ptr_touch_dispose_after_outermost. Qed.
+Print Assumptions C04_ptr_touch_dispose_after_outermost.
+
+(** non-vacuity: get() at depth 2, inner unlock, a concurrent erase retires the node and waits, dereference at depth 1,
+    outermost unlock, disposal *)
+Example C04_ptr_nested_run :
+  snd nested_run = true /\
+  skipn 2 (filter (fun x => sect_or_node (snd x)) (clis nested_run)) =
+  [(0, EvCli "rlock" [1; 1]%Z); (0, EvCli "rlock" [2; 2]%Z); (0, EvCli "runlock" [1%Z]);
+   (1, EvCli "rlock" [1; 1]%Z); (1, EvCli "runlock" [0%Z]); (1, EvCli "retire" [1%Z]);
+   (0, EvCli "touch" [1%Z]); (0, EvCli "runlock" [0%Z]); (1, EvCli "dispose" [1%Z])].
+Proof. exact nested_run_events. Qed.
+
+(** release inside a nested section, [strict = false]: after the inner lock / unlock pair the thread is still inside;
+    "release 1", "retire 1", "outoffuel", no "dispose 1" (an instance of [C04_ptr_release_inside_no_dispose]) *)
+Example C04_ptr_nested_release_inside_deadlocks :
+  forall sfuel, In sfuel [5; 40; 160]%Z ->
+    snd (nested_deadlock_run sfuel) = true /\
+    skipn 4 (map snd (filter (fun x => sect_or_node (snd x) || is_release 1 (snd x) || is_cli "outoffuel" (snd x))%bool
+                        (clis (nested_deadlock_run sfuel)))) =
+    [EvCli "rlock" [1; 1]%Z; EvCli "rlock" [2; 2]%Z; EvCli "runlock" [1%Z]; EvCli "release" [1%Z]; EvCli "retire" [1%Z];
+     EvCli "outoffuel" []].
+Proof. exact nested_release_inside_deadlocks. Qed.
